@@ -206,6 +206,21 @@ def r2_row_collector(ctx):
              and "raise Exception('Missing columns:'" in norm(ap), RC, "RowCollector.append", "a dict row with an unknown key is an error once columns exist")
     so = ctx.fn(RC, "RowCollector.sort")
     arg = so.args.args[1].arg
+    # every path through sort() reaches the loop that permutes the columns: a path that returns earlier leaves rows
+    # appended since an earlier call unsorted, whatever flag it consulted
+    from ..flowexpr import explore as _explore
+    exs = _explore(so)
+    EMPTY = ("not self._columns", "self._columns is None", "len(self._columns) == 0", "self.size() == 0", "self.size() < 2")
+    for pth in exs.paths:
+        if pth.status == "raise" or any(e.kind == "loop" for e in pth.events):
+            continue
+        guards = [(norm(t.resolved), t.extra) for t in pth.tests()]
+        what = "sort() permutes the columns on every path (no remembered 'already sorted' state short-cuts it)"
+        if any(g in EMPTY and v for g, v in guards):
+            ctx.holds(RC, "RowCollector.sort", what)
+        else:
+            ctx.violated(RC, "RowCollector.sort", what, detail={"returns without permuting under": [f"{g} is {v}" for g, v in guards]},
+                         expected="append() changes the rows without touching any such flag")
     for mode in (True, False):
         name = "array" if mode else "list"
         try:
